@@ -62,6 +62,62 @@ Proof.
 Qed.
 Print Assumptions roundtrip_keyrefs.
 
+(* recipient lists of MIXED key types: anoncrypt packs for any mix; authcrypt rejects a recipient whose type differs
+   from the sender's (pack-side rejection of the code, modelled in pack_mixed); whenever Pack succeeds the round trip
+   holds exactly as for uniform lists *)
+Theorem roundtrip_mixed : forall ktf c spar payload sender rcpts rn w party,
+  pack_mixed ktf c spar payload sender rcpts rn = Ok w ->
+  (exists k, In k rcpts /\ In k party) ->
+  exists k, In k rcpts /\ In k party /\
+    unpack Fixed (packer_of c) party w = Ok (Bytes payload, expect_from (packer_of c) sender, k) /\
+    unpack_pkgr Fixed party w = Ok (Bytes payload, expect_from (packer_of c) sender, k).
+Proof.
+  intros ktf c spar payload sender rcpts rn w party Hp Hex.
+  destruct (pack_mixed_is_pack _ _ _ _ _ _ _ _ Hp) as [c' [Hpk Hp']].
+  destruct (roundtrip_lemma _ _ _ _ _ _ _ party Hp' Hex) as [k H]. rewrite Hpk in H. exists k. exact H.
+Qed.
+Print Assumptions roundtrip_mixed.
+
+Theorem authcrypt_mixed_rejected : forall ktf c spar payload sender rcpts rn r,
+  packer_of c = JweAuth -> In r rcpts -> ktype_eqb (ktf r) (ktf sender) = false ->
+  pack_mixed ktf c spar payload sender rcpts rn = Err ERejected.
+Proof.
+  intros ktf c spar payload sender rcpts rn r P Hin Hne. unfold pack_mixed. rewrite P.
+  destruct (forallb (fun r0 => ktype_eqb (ktf r0) (ktf sender)) rcpts) eqn:F; [|reflexivity].
+  rewrite forallb_forall in F. rewrite (F r Hin) in Hne. discriminate.
+Qed.
+Print Assumptions authcrypt_mixed_rejected.
+
+(* KEY ROTATION.  In the model a party is the list of keys its KMS FINDS.  kms.Rotate replaces the id under which the
+   keyset is stored: the old key's id is no longer found (its private part stays inside the keyset).  The statement
+   "an agent holding the private part still unpacks after rotating the key" is therefore REFUTED (known finding
+   recipient-cannot-unpack-after-rotation) ... *)
+Definition rotate (party : list N) (old new : N) : list N := new :: filter (fun k => negb (k =? old)) party.
+Theorem unpack_after_rotation_refuted :
+  exists c spar payload sender rcpts rn w k k',
+    pack c spar payload sender rcpts rn = Ok w /\ In k rcpts /\
+    unpack Fixed (packer_of c) [k] w = Ok (Bytes payload, None, k) /\
+    unpack Fixed (packer_of c) (rotate [k] k k') w = Err ENotFound.
+Proof.
+  exists (mkcfg JweAnon X25519 XC20P DidKey), [1], 5, 0, [2], (mkrnd 7 8 9). eexists. exists 2, 3.
+  split; [reflexivity|]. split; [left; reflexivity|]. split; vm_compute; reflexivity.
+Qed.
+Print Assumptions unpack_after_rotation_refuted.
+
+(* ... and what holds (PARTIAL): envelopes packed to keys the rotated KMS finds — the new key, and every key that was
+   not rotated — unpack as before *)
+Theorem unpack_after_rotation_partial : forall c spar payload sender rcpts rn w party old new,
+  pack c spar payload sender rcpts rn = Ok w ->
+  (exists k, In k rcpts /\ In k (rotate party old new)) ->
+  exists k, In k rcpts /\ In k (rotate party old new) /\
+    unpack Fixed (packer_of c) (rotate party old new) w = Ok (Bytes payload, expect_from (packer_of c) sender, k).
+Proof.
+  intros c spar payload sender rcpts rn w party old new Hp Hex.
+  destruct (roundtrip_lemma _ _ _ _ _ _ _ (rotate party old new) Hp Hex) as [k [H1 [H2 [H3 _]]]].
+  exists k. repeat split; assumption.
+Qed.
+Print Assumptions unpack_after_rotation_partial.
+
 (* both at once: whoever unpacks, the result is the packed triple or the not-a-recipient error — never another
    payload, never a panic *)
 Theorem unpack_of_pack_is_total : forall c spar payload sender rcpts rn w party,
